@@ -4,7 +4,7 @@
    block of order >= k. *)
 From Coq Require Import List NArith Bool Lia.
 From RV Require Import Base.Bytes Gen.Consts Alloc.Bitmap Alloc.BitmapP Alloc.TreeP Alloc.Buddy Alloc.BuddyP
-  Alloc.LowestP Alloc.Region.
+  Alloc.ResizeP Alloc.LowestP Alloc.Region.
 Import ListNotations.
 Open Scope N_scope.
 
@@ -314,4 +314,89 @@ Proof.
     intros p Hp. apply S7 in Hp. tauto.
   - destruct (buddy_record_alloc (reg (als m) r) i k) as [[|] a']; [|exact Hinv]. cbn [snd als].
     rewrite lset_oob by exact Hr. destruct (als m). exact Hinv.
+Qed.
+
+(* ---------------------------------------------------------------- Allocators::new establishes the invariant *)
+
+Lemma twf_weaken t R R' : twf t R' -> R <= R' -> twf t R.
+Proof. intros H Hle j Hj. destruct (H j Hj). split; [assumption|lia]. Qed.
+
+Lemma tracker_new_spec regions orders :
+  twf (tracker_new regions orders) regions /\ nlen (tracker_new regions orders) = orders
+  /\ forall k r, tracker_bit (tracker_new regions orders) k r = true.
+Proof.
+  unfold tracker_new.
+  destruct (bt_new_padded_ok regions regions MAX_REGIONS (N.le_refl _)) as (H1 & H2 & H3).
+  split; [|split].
+  - intros j Hj. rewrite nlen_nrepeat in Hj. rewrite lget_nrepeat. apply N.ltb_lt in Hj. rewrite Hj.
+    split; [exact H1|lia].
+  - apply nlen_nrepeat.
+  - intros k r. unfold tracker_bit. rewrite lget_nrepeat. destruct (k <? orders); [apply H3|reflexivity].
+Qed.
+
+Lemma lget_snoc {A} (l : list A) x i d : lget (l ++ [x]) i d = if i =? nlen l then x else lget l i d.
+Proof.
+  rewrite lget_app. destruct (N.ltb_spec i (nlen l)), (N.eqb_spec i (nlen l)); try lia; try reflexivity.
+  - subst. now rewrite N.sub_diag.
+  - rewrite !lget_oob; [reflexivity|lia|simpl; lia].
+Qed.
+
+(* adding a fresh region (from BuddyAllocator::new) and marking it free up to its max_order *)
+Lemma tinv_push al IR n cap :
+  tinv al -> twf (trk al) IR -> nlen (regs al) < IR -> nlen (trk al) = MAX_MAX_PAGE_ORDER + 1 ->
+  let a := buddy_new n cap in
+  let al' := mkAllocators (tracker_mark_free (trk al) (bmax a) (nlen (regs al))) (regs al ++ [a]) in
+  tinv al' /\ twf (trk al') IR /\ nlen (trk al') = MAX_MAX_PAGE_ORDER + 1.
+Proof.
+  intros (T1 & T2 & T3 & T4) Hw HR Hn a al'. set (R := nlen (regs al)) in *.
+  destruct (new_spec n cap) as (N1 & N2 & N3 & N4). fold a in N1, N2, N3, N4.
+  assert (bmax a < nlen (trk al)) as Hm.
+  { rewrite N3, Hn. unfold calculate_usable_order. lia. }
+  destruct (tracker_mark_free_spec (trk al) IR (bmax a) R Hw HR Hm) as (M1 & M2 & M3).
+  assert (nlen (regs al') = R + 1) as HR' by (unfold al'; cbn [regs]; rewrite nlen_app; simpl; lia).
+  split; [|split; [exact M1|unfold al'; cbn [trk]; etransitivity; [exact M2|exact Hn]]].
+  unfold tinv. rewrite HR'. subst al'. cbn [trk] in *.
+  split; [apply (twf_weaken _ _ IR M1); lia|]. split; [|split].
+  - intros r Hr. rewrite M2. unfold reg. cbn [regs]. rewrite lget_snoc. fold R.
+    destruct (N.eqb_spec r R) as [->|]; [split; [exact N1|exact Hm]|]. apply T2. lia.
+  - intros k r Hr. rewrite M3. destruct (N.eqb_spec r R) as [->|]; [lia|].
+    rewrite andb_false_r. apply T3. lia.
+  - intros r k Hr [j [J1 J2]]. rewrite M3. unfold reg in J2. cbn [regs] in J2. rewrite lget_snoc in J2. fold R in J2.
+    destruct (N.eqb_spec r R) as [->|Hne].
+    + rewrite andb_true_r. destruct (N.leb_spec k (bmax a)); [reflexivity|].
+      destruct J2 as [i F]. destruct N1 as (Hs & _). destruct (fr_lt _ a j i Hs F). lia.
+    + rewrite andb_false_r. apply T4; [lia|eauto].
+Qed.
+
+Lemma range_from_snoc n : forall lo, range_from (S n) lo = range_from n lo ++ [lo + N.of_nat n].
+Proof.
+  induction n; intros lo.
+  - cbn [range_from app]. now rewrite N.add_0_r.
+  - change (range_from (S (S n)) lo) with (lo :: range_from (S n) (lo + 1)).
+    rewrite (IHn (lo + 1)). replace (lo + 1 + N.of_nat n) with (lo + N.of_nat (S n)) by lia. reflexivity.
+Qed.
+
+Theorem allocators_new_tinv l : tinv (allocators_new l).
+Proof.
+  unfold allocators_new.
+  set (IR := N.max INITIAL_REGIONS (num_regions l)).
+  set (f := fun acc i => let a := buddy_new (region_pages l i) (full_pages l) in
+                         mkAllocators (tracker_mark_free (trk acc) (bmax a) i) (regs acc ++ [a])).
+  destruct (tracker_new_spec IR (MAX_MAX_PAGE_ORDER + 1)) as (W1 & W2 & W3).
+  set (al0 := mkAllocators (tracker_new IR (MAX_MAX_PAGE_ORDER + 1)) []).
+  assert (forall m, N.of_nat m <= num_regions l ->
+            let al := fold_left f (range_from m 0) al0 in
+            tinv al /\ twf (trk al) IR /\ nlen (trk al) = MAX_MAX_PAGE_ORDER + 1 /\ nlen (regs al) = N.of_nat m) as H.
+  { induction m as [|m IH]; intros Hm.
+    - cbn [range_from fold_left]. split; [|split; [exact W1|split; [exact W2|reflexivity]]].
+      unfold tinv, al0. cbn [trk regs nlen].
+      split; [apply (twf_weaken _ _ IR W1); lia|]. split; [intros r Hr; lia|]. split; [intros; apply W3|intros r k Hr; lia].
+    - specialize (IH ltac:(lia)). cbv zeta in IH. destruct IH as (I1 & I2 & I3 & I4).
+      rewrite range_from_snoc, fold_left_app. cbn [fold_left]. rewrite N.add_0_l.
+      set (al := fold_left f (range_from m 0) al0) in *.
+      unfold f at 1. cbv zeta. rewrite <- I4.
+      destruct (tinv_push al IR (region_pages l (nlen (regs al))) (full_pages l) I1 I2 ltac:(unfold IR; lia) I3) as (P1 & P2 & P3).
+      split; [exact P1|]. split; [exact P2|]. split; [exact P3|].
+      unfold f. cbn [regs]. rewrite nlen_app. cbn [nlen]. lia. }
+  specialize (H (N.to_nat (num_regions l)) ltac:(lia)). cbv zeta in H. tauto.
 Qed.
